@@ -9,6 +9,30 @@ ALL = [f"C{i:02d}" for i in range(1, 20)]
 
 # id -> (category, technique, level text, level note, design ref)
 CHECKS = {
+    "C02": ("exploration", "exhaustive enumeration of all 2^32 float32 inputs (thorough) / a complete coset + threshold neighbourhoods (quick); float64 and hypot product lattices; exact multiprecision decision of every reported count",
+            "Every float32 input of each unary real algorithm is evaluated (thorough tier) through an interpreter that is bit-identical to the emitted NumPy code; a float64 filter selects the points whose error could reach 3 ULP or that sit near a rounding boundary and those are decided exactly with mpmath at two precisions. NaN-set, limits at inf/0, the 4/5-ULP bound and the 1e-5 rate are judged on the complete enumeration.",
+            "Trusts NumPy float32/float64 arithmetic (IEEE), float64 libm only as a filter, mpmath under two-precision agreement. float64 inputs and hypot pairs are covered on stated lattices only.", "DESIGN.md §2 C02"),
+    "C03": ("exploration", "oracle-free bounded exhaustive comparison of the implementation with itself under each symmetry over complete product lattices and all float32 inputs",
+            "Bit-pattern comparison of f(z) with f(conj z), f(-z), f(iz) and of derived functions with their parents on the full product S x S of a negation-closed component lattice (all binades, thresholds +-2 ULP, special values, infinities) for 14 functions x 2 precisions, and on all float32 inputs (thorough) for the real functions. No tolerance: a single differing bit outside the literally excluded branch-cut/zero cases decides.",
+            "Trusts the interpreter's bit-identity with the emitted NumPy code (measured by C01's conformance replay). Inputs off the lattice are not covered.", "DESIGN.md §2 C03"),
+    "C10": ("exploration", "exhaustive enumeration of all float16 operand pairs (thorough) / all pairs of a 4096-value sub-alphabet (quick) per variant, exact comparison in a wider exact arithmetic",
+            "All 4.03e9 ordered float16 pairs per 2Sum/Fast2Sum/Dekker variant (fpa, apmath, utils and the copies inlined in algorithms.py) and all finite float16 through every splitter are checked for s=RN(x+y), s+t=x+y, h=RN(xy), h+l=xy, xh+xl=x and half widths, in float64 where sums/products of float16/32 operands are exact; float32/64 on a delta-exponent product lattice.",
+            "Trusts float64 exactness of float16/float32 sums and products within the stated exponent spans (asserted), NumPy casts as RN-even. float32/float64 are covered on the structured lattice only.", "DESIGN.md §2 C10"),
+    "C11": ("exploration", "complete Cartesian products S^3 / S^4 of boundary alphabets plus directed cancellation sets, every algorithm variant, exact correctly rounded reference",
+            "next/is_power_of_two on every float16 of the documented domain; add_3sum, mul_add, 20 fma variants on S^3 and z within +-4 ULP of RN(-xy); add_4sum, dot2 on S^4; evaluated both through the traced+emitted NumPy implementation and eagerly through NumpyContext; reference = exact sum/product rounded once (float64 TwoSum + midpoint fix-up, self-checked against Fraction each run).",
+            "Trusts IEEE float64 arithmetic and Python Fractions. Alphabets, not all floats, for the n-ary operations.", "DESIGN.md §2 C11"),
+    "C12": ("exploration", "all lists of length <= 4 (5) over a combinatorial float16 alphabet x {functional via NumpyContext, functional traced+emitted, eager} x {fast, safe} x size limits; exact sums",
+            "Exact-sum preservation, normal form after two passes, truncation semantics, and exactness / 1-ulp bounds of add, subtract, multiply, square on all pairs of valid expansions, with an independent overlap predicate (also compared with utils.overlapping).",
+            "Trusts float64 exactness for sums of <= 6 float16 values, Fractions otherwise. fast=True is judged only on inputs whose non-zero items already form a decreasing non-overlapping sequence (its documented domain).", "DESIGN.md §2 C12"),
+    "C13": ("exploration", "exhaustive enumeration of all 65536 float16 bit patterns and all-binade lattices for float32/64 through every conversion pair, exact integer decoding as reference",
+            "Every float16 pattern (all NaN payloads) is sent through float2fraction/fraction2float, float2bin/bin2float, float2mpf/mpf2float, mpf2expansion/expansion2mpf and mpf2multiword/multiword2mpf (option grid); the intermediate object's exact value is compared with an integer decoding of the bit pattern and the round trip must be bit-identical.",
+            "Trusts Python integers/Fractions and the meaning of an mpf tuple. float32/float64 are covered on the binade x 64-mantissa lattice.", "DESIGN.md §2 C13"),
+    "C14": ("exploration", "all adjacent float16 pairs and k-chains, complete pair/triple products of alphabets, both flush modes, against an ordinal model",
+            "diff_ulp is compared with the integer lattice distance for every finite float16 and its k<=64 neighbours, for all ordered pairs of a 2048-value alphabet (symmetry, zero-iff-equal, additivity on monotone triples), under a flush-ordinal model, for complex pairs, and ulp() against its nextafter identities for every finite float16.",
+            "Trusts numpy.nextafter and the sign-magnitude integer view. float32/64 on lattices.", "DESIGN.md §2 C14"),
+    "C15": ("exploration", "exhaustive enumeration of all mpf values with <= 14-bit mantissas over the whole exponent range for float16 (ties, subnormal boundaries, overflow edge), tie lattices for float32/64, all float16 inputs through the backend x option grid",
+            "mpf2float is compared with an exact integer round-to-nearest-even wherever the statement promises a value; exact functions through vectorize_with_mpmath / numpy_with_mpmath on every float16 input for seven option sets must return the exact value, preserving subnormals unless flushing was requested.",
+            "Trusts Fractions and mpmath's make_mpf. Results in the subnormal range are judged only where the statement promises something; flush=True uses flush-to-zero semantics.", "DESIGN.md §2 C15"),
     "C16": (
         "exploration",
         "bounded exhaustive enumeration of (scheme, flags, degree, coefficient vector, point) configurations against the Fraction definition",
@@ -19,6 +43,12 @@ CHECKS = {
         "Trusts Python int/Fraction. Polynomials outside the enumerated degree/alphabet bounds are covered only through genericity of the coefficients.",
         "DESIGN.md §2 C16",
     ),
+    "C17": ("exploration", "exhaustive enumeration of every in-domain float16, complete ULP neighbourhoods of k*ln2 / k*pi/2 and continued-fraction hard cases for float32/64, multiprecision reconstruction",
+            "Every finite float16 of the stated domains, and for float32/64 the binade lattice, the complete neighbourhoods of every k*ln2 and of k*pi/2 (k<256/1024) and the per-binade mantissas closest to multiples of pi/2 and ln2 are reduced by the real code; k, |r| and the reconstruction error are judged against ln2/pi carried as Fractions at >10x precision.",
+            "Trusts mpmath's ln2 and pi and Fractions. float32/float64 off the constructed set are not covered.", "DESIGN.md §2 C17"),
+    "C19": ("exploration", "complete product of size x bounds x flags x dtype configurations with structural predicates on the returned arrays",
+            "real_samples is called on the full product of 22+ sizes (incl. N_repr-1..N_repr+1) x 15^2 (min,max) bound pairs x flag sets x 3 dtypes; ordering, bounds, presence of requested special values, absence of subnormals/NaN, and ULP-uniformity are judged with ordinal arithmetic; the pair/triple/complex generators are compared with Cartesian products of the 1-D calls.",
+            "Sizes below the documented minimum 6 and min>max are outside the domain; with unique=False only multiset properties are judged.", "DESIGN.md §2 C19"),
 }
 
 NOT_YET = "check not built yet (construction order in DESIGN.md §7); no claim is made until its quick tier is green and has caught a seeded change"
